@@ -66,6 +66,16 @@ def do_case(ctx, inp):
         ctx.op({"op": "add_seq", "cfg": before, "rules": [snap(ro)]}, {"t": snap(new)})
         if new.id != cur.id:
             ctx.case(inp, True, tg); ctx.fail("id-not-kept", {"old": cur.id, "new": new.id}); return
+        # "a new configurator": what add() returns is the caller's — editing its own variable in place (fixing it, as
+        # assume() does for a receiver) must not reach the configurator it was made from, nor an earlier result
+        probe = cur.add(build(r))
+        try:
+            probe.variable.bounds = puan.Bounds(1, 1)
+        except Exception:
+            pass
+        if snap(cur) != before or snap(o) != t0:
+            ctx.case(inp, True, tg); ctx.fail("editing-the-returned-configurator-changed-the-one-it-was-made-from",
+                                              {"rule": r, "edit": "result.variable.bounds = Bounds(1, 1)", "before": before["lo"], "after": snap(cur)["lo"]}); return
         prev_ast = cur_ast
         cur_ast = {"c": "Stingy", "args": cur_ast["args"] + [r], "id": cur.id}
         direct = build(cur_ast)
